@@ -176,7 +176,7 @@ class P(Prop):
     partial = []
     open_statements = [
         "IEEE-754: monotonicity of float + on finite values and the rounding of math.log are not proved (theorems are over linear orders / ordered monoids / groups / reals); the float streams are covered by the correspondence and the sampled oracle only",
-        "numpy.argmin on NaN, infinite user-supplied logs and path costs >= 1e300 (sentinel reached) are outside the hypotheses (PathsBelow is discharged for bounded entries and for non-negative likelihoods: paths_below_of_bounded, likelihood_form_nonneg; user-supplied logarithms without a bound keep it as a hypothesis)",
+        "non-finite numbers and the sentinel: numpy.argmin's NaN rule is in the model (argmin?: first NaN, else first minimum; T19) and +inf / NaN / -inf costs and costs >= 1e300 run through the correspondence (IEEE doubles: single calls, enumerated {0,-1,-inf} tables, histories); PROVED over linear orders with a monotone accumulation that never decreases a value (non-negative costs, +inf = impossible allowed: T15-T18). NOT covered by a theorem: negative costs (log-likelihoods above 0: densities) together with a reached sentinel - T3 keeps PathsBelow there (discharged for bounded entries and non-negative likelihoods: paths_below_of_bounded, likelihood_form_nonneg); NaN / cost -inf tables beyond T19 (what the forward scan does with them is the model's, compared only). When NO candidate sequence costs less than 1e300 (e.g. every sequence goes through an impossible transition) the code records hmm_cost = 1e300 + p at the last epoch, not the true (infinite) cost: outside the statement's domain as the oracle reads it (optimum below the sentinel), stated as T16 / T17",
         "the user functions S, Q, P are parameters of the model (any functions of state, observation, epoch and track - track-reading ones included: T13; raising ones included: T14, one exception kind for all of them); user functions with SIDE EFFECTS (writing the track, an iterator that is consumed, random sampling: S(track,k) called twice would differ) are outside the model - a function is a value here",
         "feature names t, timestamp as observations are outside the model (`unsupported`; x, y, z are modelled: T9); writing x, y, z through setObsAnalyticalFeature (an in-place write of the position object by the USER) is outside the model",
         "object identity: the model represents a state by its label and a position by a reference (own object / state object), with no writer of a coordinate, so 'estimate does not modify what S returned' is a property of the model by construction (T8: xyz unchanged, stXYZ a constant); that the IMPLEMENTATION modifies neither a state object nor a container is checked by the harness after every call (every candidate re-read by value, every container re-read by identity), not proved",
@@ -189,25 +189,31 @@ class P(Prop):
                 "and OBS before any write, every user function evaluated on the track of the call (they may read it) and in the order of the code "
                 "(all S, then the first column, then per epoch and candidate the transitions and the observation: the first exception of a user function "
                 "or of math.log leaves the call), first column, forward recursion with the 1e300 sentinel and strict <, "
-                "createAnalyticalFeature of the two result names (no-op when present), numpy.argmin of the last column, backward loop writing the state "
+                "createAnalyticalFeature of the two result names (no-op when present), numpy.argmin of the last column with its NaN rule (the index of the FIRST NaN "
+                "if there is one, else of the first minimum; the forward scan never takes a NaN: nan < best_val is false), backward loop writing the state "
                 "OBJECT and the recorded cost per epoch and the position in modes 3,4,5, with the partial writes left by an IndexError / ValueError on "
                 "an epoch without candidates; tracklib/core/track.py as far as this path uses it: createAnalyticalFeature, setObsAnalyticalFeature, "
                 "getObsAnalyticalFeature(s) on the name -> column table and on the names x, y, z (coordinates of the object the position is: the track's own, "
                 "or the state object bound there by a decoding in mode 3,4,5), copy(). There is no decoding mode besides Viterbi: `mode` only selects how "
                 "observations are assembled and whether positions are overwritten; `verbose` only prints (randomised by the harness, not a parameter of the model)")
-    trusted = ["numpy.argmin returns the first minimum of a list of finite numbers (modelled as a strict-< scan; exercised by the correspondence)",
+    trusted = ["numpy.argmin of a list of Python floats is numpy's double loop: the first NaN if any, else the first minimum (modelled as that loop: argmin? / argminFrom; exercised by the correspondence on columns with NaN, +-inf, ties)",
                "math.log / Lean Float.log (C library) in the likelihood streams; the theorems about likelihoods are over the reals",
                "copy.deepcopy of a track yields an independent track with equal features (the model's tracks are values)",
                "len() and integer indexing (with a Python int or a numpy.int64) of the containers S returns - tuple, numpy.ndarray, collections.deque, range - are Python's / numpy's: the model sees the items in index order"]
     rule = ("single calls: user-supplied S/Q/P read from tables, states labelled 10*epoch+index and callbacks that raise when called with a state or "
             "observation of the wrong epoch; enumerated blocks of all tables of a shape over {0,-1,-2} (logs) and {0,0.5,1} (likelihoods); "
-            "random shapes to T=8, S=5 with integer, dyadic and float values; the flag given to the constructor, to setLog or to estimate(); "
+            "random shapes to T=8, S=5 with integer, dyadic and float values; log-likelihoods with IMPOSSIBLE entries (-inf: zero-probability transitions / "
+            "emissions, the normal case in map-matching; enumerated over {0,-1,-inf} for the small shapes, random with 29% / 60% of -inf: a possible sequence "
+            "exists or not), costs that reach the 1e300 start value of the scan, NaN and +inf entries (numpy.argmin's NaN rule, inf - inf), inf / NaN handed over "
+            "as likelihoods; non-finite entries are written \"inf\" / \"-inf\" / \"nan\" in a case; the oracle applies to a call iff every cost is a number above -inf and the "
+            "enumerated optimum is below 1e300 (a predicate on the input), elsewhere the model is the only reference and a differing answer is a disagreement, never a tie; "
+            "the flag given to the constructor, to setLog or to estimate(); "
             "S returning a list, tuple, numpy array, range or user sequence. "
             "histories (props/c09sess.py): tracks of 1..8 epochs with 1..3 discrete observation features whose values repeat, 1..4 models whose P depends on "
             "(state label, observed value, epoch) and Q on (label, label, epoch) (time-inhomogeneous or stationary), candidate lists over 1..4 labels that "
             "repeat across epochs (and inside one), state objects of 8 kinds (ints, strings, tuples, unhashable lists, equal-but-distinct hashable / "
             "unhashable objects, identity objects, positions, positions of the track itself), 1..3 HMM objects, 1..4 estimate calls interleaved with setLog / setStates / "
-            "setTransitionModel / setObservationModel, edits of observations, copy() of the track, user features named hmm_inference / hmm_cost, "
+            "setTransitionModel / setObservationModel (16% of the models over log-likelihoods with -inf / NaN / +inf / -1e300 entries), edits of observations, copy() of the track, user features named hmm_inference / hmm_cost, "
             "hmm_inference / hmm_cost / idx / x / y / z used as observations, modes 0..6, all verbose levels; S returning per epoch a list, tuple, numpy array "
             "(int64 / object), user class with __len__/__getitem__, deque or range - or a generator / None / bare state (TypeError, outside the statement); "
             "state objects and containers fresh at every call, or constants of the session, or ONE container object for all epochs; flavour trackpos: the "
